@@ -43,6 +43,8 @@ FIXED_PROGRAMS = [
     'OPENQASM 3.0;\ninclude "stdgates.inc";\nqubit[3] q;\nbit[2] c;\nint[8] n = 2;\nh q[0];\nif (n == 2) {\n  bit[3] t;\n  t[1] = measure q[0];\n  x q[1];\n}\nfor int i in [0:0] {\n  bit[2] u;\n  u[i] = measure q[1];\n}\nc[0] = measure q[1];\n',
     # subroutines applied to index sets listed in descending / mixed order, bodies touching only some of their formal qubits
     'OPENQASM 3.0;\ninclude "stdgates.inc";\nqubit[7] q;\nbit[2] c;\ndef first(qubit[2] p) { h p[0]; }\ndef pick(qubit[3] p, qubit a) { cx p[0], a; barrier p[1]; }\nfirst(q[{3, 1}]);\npick(q[{6, 2, 0}], q[4]);\nc[0] = measure q[3];\n',
+    # bit registers declared with computed initial values (they count as registers on the validate path as on the unroll path)
+    'OPENQASM 3.0;\ninclude "stdgates.inc";\nqubit[3] q;\nint[8] n = 1;\nconst int[8] k = 2;\nbit[4] a = n + 1;\nbit[2] f = k;\nbit e = !false;\nbit[3] c;\nh q[0];\na[1] = measure q[0];\nif (a[1] == 1) {\n  x q[1];\n}\nc[2] = measure q[1];\nbarrier q[2];\n',
     # OpenQASM 2 modules go through the same machinery (their own accept / printer)
     'OPENQASM 2.0;\ninclude "qelib1.inc";\nqreg q[4];\nqreg r[2];\ncreg c[4];\nh q[0];\ncx q[0],q[2];\nbarrier q[0],q[2];\nmeasure q[2] -> c[2];\nu3(0.1,0.2,0.3) r[1];\nif(c==1) x q[0];\nbarrier r;\n',
     'OPENQASM 2.0;\ninclude "qelib1.inc";\nqreg q[3];\ncreg c[3];\ngate g2(t) a, b { rx(t) a; cx a, b; }\ng2(0.5) q[0],q[1];\nbarrier q;\nh q[1];\nmeasure q -> c;\n',
